@@ -204,7 +204,7 @@ FutCheck ==
     /\ pendFut' = FALSE
     /\ IF AllDone THEN FutComplete ELSE UNCHANGED <<futN, futVal, futExc, futOut>>
     /\ act' = A("FutCheck", 0)
-    /\ UNCHANGED <<cfgvars, next, running, res, order, peak, holder, pc, cur, budget, syncPut, firstExc, notified, phase,
+    /\ UNCHANGED <<cfgvars, next, running, res, order, peak, holder, pc, cur, budget, syncPut, pendRet, firstExc, notified, phase,
                    out, raised, consumed>>
 
 -----------------------------------------------------------------------------
